@@ -547,6 +547,8 @@ class Entity:
         self.poll_armed = False
         self.nodrain = False
         self.drained: dict[str, bool] = {}
+        self.peer: "Entity | None" = None  # the entity at the other end of this entity's link
+        self.tape = world.tape  # tape deciding link faults / pacing of what this entity sends
 
     def note_state(self, hk: str, snap: Snap) -> None:
         """History kept by the user: what it can see through the public properties."""
@@ -582,10 +584,10 @@ class Link:
 
     def send(self, src_ent: Entity, em: Emitted) -> None:
         w = self.w
-        t = w.tape
-        dst = w.b if src_ent is w.a else w.a
+        t = src_ent.tape
+        dst = src_ent.peer
         self.sent += 1
-        key = ("a>b " if src_ent is w.a else "b>a ") + em.kind
+        key = f"{src_ent.name}>{dst.name} " + em.kind
         self.pdu_count[key] = self.pdu_count.get(key, 0) + 1
         if self.hook is not None:
             r = self.hook(src_ent, dst, em, key)
@@ -596,7 +598,7 @@ class Link:
                 if r[0] == "delay":
                     w.push(w.clock.t + w.cfg.lat_ms + r[1], ("arr", dst, em.raw))
                 return
-        if self.partition[src_ent.name]:
+        if self.partition.get(src_ent.name):
             self.fired["partition_drop"] += 1
             self.last_fault_t = w.clock.t
             w.log.append(f"  link {key} {em.info} PARTITION-DROP")
@@ -698,6 +700,8 @@ class World:
         self.pending = 0  # queued non-poll events
         self.pacing = "regular"
         self.polled = (("a", "src"), ("b", "dst"))
+        self.audit = None  # object with enter(rec)/exit(rec), active around every handler API call (C16)
+        self.ents: dict[str, Entity] = {}
         self._build()
 
     # -- construction
@@ -732,31 +736,57 @@ class World:
         self.a = Entity(self, "a", 1, c.idw_a)
         self.b = Entity(self, "b", 2, c.idw_b)
         for ent, other, ind, vfs in ((self.a, self.b, c.ind_a, self.vfs_a), (self.b, self.a, c.ind_b, self.vfs_b)):
-            ent.user = RecUser(self, ent, vfs)
-            ent.fh = RecFaultHandler(self, ent)
-            ent.timers = SimCheckTimers(self, ent)
-            ent.lcfg = LocalEntityCfg(ent.eid, ind_cfg(ind), ent.fh)
-            ent.rcfg = RemoteEntityCfg(
-                entity_id=other.eid,
-                max_file_segment_len=c.seg,
-                max_packet_len=c.mpl,
-                closure_requested=c.mib_closure,
-                crc_on_transmission=c.crc,
-                default_transmission_mode=c.mib_mode,
-                crc_type=c.ck,
-                positive_ack_timer_interval_seconds=c.ack_s,
-                positive_ack_timer_expiration_limit=c.ack_lim,
-                check_limit=c.check_lim,
-                disposition_on_cancellation=c.dispo,
-                immediate_nak_mode=c.imm_nak,
-                nak_timer_interval_seconds=c.nak_s,
-                nak_timer_expiration_limit=c.nak_lim,
-            )
-            ent.table = RemoteEntityCfgTable([ent.rcfg])
-            ent.seqp = WrapSeq(c.seqw * 8, c.seq_start if c.seq_start < (1 << (c.seqw * 8)) else 0)
-            ent.handlers["src"] = SourceHandler(ent.lcfg, ent.user, ent.table, ent.timers, ent.seqp)
-            ent.handlers["dst"] = DestHandler(ent.lcfg, ent.user, ent.table, ent.timers)
+            self._equip(ent, other, ind, vfs)
         self.b.user.hooks = self.user_hooks_b
+        self.a.peer = self.b
+        self.b.peer = self.a
+        self.ents = {"a": self.a, "b": self.b}
+
+    def _equip(self, ent, other, ind, vfs, seq_provider=None) -> None:
+        """User, fault handler, MIB and one source + one destination handler for an entity."""
+        c = self.cfg
+        ent.user = RecUser(self, ent, vfs)
+        ent.fh = RecFaultHandler(self, ent)
+        ent.timers = SimCheckTimers(self, ent)
+        ent.lcfg = LocalEntityCfg(ent.eid, ind_cfg(ind), ent.fh)
+        ent.rcfg = RemoteEntityCfg(
+            entity_id=other.eid,
+            max_file_segment_len=c.seg,
+            max_packet_len=c.mpl,
+            closure_requested=c.mib_closure,
+            crc_on_transmission=c.crc,
+            default_transmission_mode=c.mib_mode,
+            crc_type=c.ck,
+            positive_ack_timer_interval_seconds=c.ack_s,
+            positive_ack_timer_expiration_limit=c.ack_lim,
+            check_limit=c.check_lim,
+            disposition_on_cancellation=c.dispo,
+            immediate_nak_mode=c.imm_nak,
+            nak_timer_interval_seconds=c.nak_s,
+            nak_timer_expiration_limit=c.nak_lim,
+        )
+        ent.table = RemoteEntityCfgTable([ent.rcfg])
+        ent.seqp = seq_provider or WrapSeq(c.seqw * 8, c.seq_start if c.seq_start < (1 << (c.seqw * 8)) else 0)
+        ent.handlers["src"] = SourceHandler(ent.lcfg, ent.user, ent.table, ent.timers, ent.seqp)
+        ent.handlers["dst"] = DestHandler(ent.lcfg, ent.user, ent.table, ent.timers)
+
+    def add_pair(self, name_x: str, name_y: str, eid_x: int, eid_y: int, tape=None):
+        """A second, independent pair of entities (sibling handler instances in the same process,
+        C11): own ids, own users, own link direction pair, same clock, same scheduler."""
+        c = self.cfg
+        x = Entity(self, name_x, eid_x, c.idw_a)
+        y = Entity(self, name_y, eid_y, c.idw_b)
+        if tape is not None:
+            x.tape = tape
+            y.tape = tape
+        self._equip(x, y, c.ind_a, self.vfs_a)
+        self._equip(y, x, c.ind_b, self.vfs_a)
+        x.peer, y.peer = y, x
+        self.ents[name_x] = x
+        self.ents[name_y] = y
+        self.link.partition[name_x] = False
+        self.link.partition[name_y] = False
+        return x, y
 
     def _fs_decide(self, op, path, *extra):
         if self.fs_fault is None:
@@ -830,6 +860,9 @@ class World:
         # (in no-drain mode it cannot know that the queue is empty, so the clause is not judged)
         rec.qlen_entry = 0 if ent.drained.get(hk, True) else max(rec.pre.nready, 1)
         self.cur_call = rec
+        aud = self.audit
+        if aud is not None:
+            aud.enter(rec)
         try:
             if op == "sm":
                 h.state_machine(pdu)
@@ -865,6 +898,8 @@ class World:
                     rec.tags = rec.tags + ("PACKFAIL:" + ei.cls,)
                     continue
                 rec.emitted.append(Emitted(raw_out, parse_pdu(raw_out), obj_len))
+        if aud is not None:
+            aud.exit(rec)
         rec.post = Snap(h)
         self.cur_call = None
         clock.cur = None
@@ -989,16 +1024,16 @@ class World:
         if self.pacing == "regular":
             d = 1 if busy else p
         else:
-            d = (1, 7, p, 4 * p)[self.tape.choose(4, f"pace {ent.name}.{hk}")]
+            d = (1, 7, p, 4 * p)[ent.tape.choose(4, f"pace {ent.name}.{hk}")]
         self.push(self.clock.t + d, ("poll", ent, hk))
 
     def start_polls(self) -> None:
         self.polls_stopped = False
         for en, hk in self.polled:
-            self.arm_poll(self.a if en == "a" else self.b, hk, True)
+            self.arm_poll(self.ents[en], hk, True)
 
     def all_idle(self) -> bool:
-        for ent in (self.a, self.b):
+        for ent in self.ents.values():
             for h in ent.handlers.values():
                 if h.state != CfdpState.IDLE:
                     return False
